@@ -721,7 +721,7 @@ class _Merger(object):
     def _concile_meta(self, left, right):
         default = left.empty
         if left.default is not left.empty and right.default is not right.empty:
-            if left.default == right.default:
+            if left.default is right.default or left.default == right.default:
                 default = left.default
             else:
                 # The defaults are different. Short of using an "It's complicated"
